@@ -13,7 +13,6 @@ import (
 	"fmt"
 	"io"
 	"math"
-	"math/rand"
 	"reflect"
 	"strings"
 	"sync"
@@ -308,6 +307,10 @@ func NewWithConsts(ctx context.Context, nodeID string,
 	mtu int, routeUpdateTime time.Duration, serviceAdTime time.Duration, seenUpdateExpireTime time.Duration,
 	maxForwardingHops byte, maxConnectionIdleTime time.Duration,
 ) *Netceptor {
+	// The epoch orders the instances of one node ID: seconds since 1970 in the upper bits and the fraction of the
+	// second in the lower 24 bits, so that an instance started later always has the larger epoch - also when it is
+	// started within the same second as the one it replaces.
+	now := time.Now()
 	s := Netceptor{
 		nodeID:                   nodeID,
 		mtu:                      mtu,
@@ -316,7 +319,7 @@ func NewWithConsts(ctx context.Context, nodeID string,
 		seenUpdateExpireTime:     seenUpdateExpireTime,
 		maxForwardingHops:        maxForwardingHops,
 		maxConnectionIdleTime:    maxConnectionIdleTime,
-		epoch:                    uint64(time.Now().Unix()*(1<<24)) + uint64(rand.Intn(1<<24)),
+		epoch:                    uint64(now.Unix())<<24 | uint64(now.Nanosecond())<<24/1000000000,
 		sequence:                 0,
 		sequenceLock:             &sync.RWMutex{},
 		connLock:                 &sync.RWMutex{},
